@@ -407,7 +407,6 @@ func (g *Gen) Global(name, sort string, distinct bool) string {
 
 // EmitDecls writes everything that was declared on demand.
 func (g *Gen) EmitDecls(b *strings.Builder) {
-	b.WriteString("(declare-fun f64.zero () F64)\n(declare-fun f32.zero () F32)\n(declare-fun dec.zero () Dec)\n")
 	for _, k := range g.structOrder {
 		s := g.structSorts[k]
 		if len(s.Fields) == 0 {
@@ -529,6 +528,9 @@ func (g *Gen) WF(t types.Type, s string) string {
 	case *types.Pointer, *types.Map:
 		return "(>= " + s + " 0)"
 	case *types.Struct:
+		if g.SortOf(t) == "Dec" {
+			return ""
+		}
 		ss := g.structSort(t)
 		var parts []string
 		for i := 0; i < u.NumFields(); i++ {
